@@ -244,6 +244,70 @@ def overlap_scenario(kind, op_a, op_b, d, deviations):
     return out
 
 
+MAINT_TIMEOUTS = [3.0, 600.0, 86400.0, 2 * 86400.0 + 300.0]
+
+
+def maintenance_scenario(timeout, held_for):
+    """Redis: a live consumer holds a message; another process connects (which runs maintenance) and
+    polls.  The message may only change hands once it has been held longer than its execution
+    timeout."""
+    from ..vloop import CLOCK
+    x = Exec("redis", clients=2)
+    w = x.world
+    loop = x.loop
+    out = {}
+    try:
+        async def setup():
+            await w.brokers[0].connect()
+            await w.broker.queue_declare("q")
+            await w.broker.enqueue(w.key("m0", "job", "q", 9), "p", w.params(timeout=timeout))
+            c0 = w.brokers[0].get_consumer("q", None, None, MessageCategory.NORMAL)
+            await c0.start()
+            key, _, _ = await c0.consume()
+            return c0
+
+        st, c0 = x.run(setup())
+        assert st == "ok", (st, c0)
+        loop.run_for(min(held_for, 1.0))
+        if held_for > 1.0:
+            CLOCK.offset_ns += round((held_for - 1.0) * NS)  # the holder keeps working for a long time
+        got = []
+
+        async def other():
+            await w.brokers[1].connect()  # runs maintenance
+            c1 = w.brokers[1].get_consumer("q", None, None, MessageCategory.NORMAL)
+            await c1.start()
+            try:
+                key, _, _ = await asyncio.wait_for(c1.consume(), 0.7)
+                got.append(key.id_)
+            except asyncio.TimeoutError:
+                pass
+            await c1.finish()
+
+        st, v = x.run(other(), max_iters=300_000)
+        x.settle(0.05)
+        obs = w.observe()
+        out = dict(got=got, places=sorted(e["place"] for e in obs.get("m0", [])), status=st, handles=loop.handles,
+                   points=list(x.chooser.points))
+    finally:
+        x.close()
+    return out
+
+
+def judge_maintenance(scn, r):
+    viol = []
+    t, h = scn["timeout"], scn["held_for"]
+    if h < t - 1.0:
+        if r["got"] or r["places"] != ["held"]:
+            viol.append(("released-while-held", f"a message with execution timeout {t}s had been held for {h}s by a live consumer when "
+                                                f"another process connected: it was handed to the newcomer {r['got']} / is now in {r['places']}"))
+    elif h > t + 1.0:
+        if r["got"] != ["m0"] and r["places"] not in (["waiting"],):
+            viol.append(("not-released", f"a message held for {h}s with execution timeout {t}s was not made available by maintenance "
+                                         f"(newcomer received {r['got']}, places {r['places']})"))
+    return viol
+
+
 def judge_overlap(scn, r):
     viol = []
     ents = r["entries"]
@@ -325,6 +389,9 @@ def judge_workers(scn, r):
 
 
 def run_one(scn, deviations):
+    if scn["level"] == "maintenance":
+        r = maintenance_scenario(scn["timeout"], scn["held_for"])
+        return r, judge_maintenance(scn, r), dict(got=r["got"], places=r["places"])
     if scn["level"] == "overlap":
         r = overlap_scenario(scn["kind"], scn["op_a"], scn["op_b"], scn["d"], deviations)
         return r, judge_overlap(scn, r), dict(entries=r["entries"], got1=r["got1"], local1=r["local1"])
@@ -351,6 +418,12 @@ def jobs(tier):
     bound = 2 if tier == "quick" else 3
     out = []
     span = 8 if tier == "quick" else 14
+    maint = []
+    for t in MAINT_TIMEOUTS:
+        for h in sorted({1.5, 10.0, 90.0, t - 2.0, t + 2.0, t / 2}):
+            if h > 0:
+                maint.append(dict(level="maintenance", kind="redis", n=1, timeout=t, held_for=h))
+    out.append(dict(overlap=maint))
     for kind in ("mem", "redis", "amqp"):
         for a in OVERLAP_A:
             for b in OVERLAP_B:
